@@ -223,7 +223,13 @@ pub(crate) fn wrap_single_line_slow_path<'a>(
     let subsequent_width = options
         .width
         .saturating_sub(display_width(options.subsequent_indent));
-    let line_widths = [initial_width, subsequent_width];
+    // Only the very first line of the output carries the initial
+    // indent, later paragraphs start with the subsequent indent.
+    let line_widths = if lines.is_empty() {
+        [initial_width, subsequent_width]
+    } else {
+        [subsequent_width, subsequent_width]
+    };
 
     let words = options.word_separator.find_words(line);
     let split_words = split_words(words, &options.word_splitter);
